@@ -21,7 +21,10 @@ txt = ['## Appendix D. Independently seeded changes and the checks that catch th
        '`[extra-effect#k]` are reference-model comparisons (E2b); the others are structural rules.', '',
        'Ids `Cxx-k` are the first round; ids `Cxx-r2-k` a second round whose prompt asked for changes in helper functions,',
        'option plumbing and callers rather than in the function the property names (to probe the edges of what each check reads).',
-       'Changes that a check missed when first tried, and what was strengthened, are listed in the change log (item 10).', '',
+       'Ids `Cxx-r3-k` and `Cxx-r4-k` are a third and fourth round whose prompt demanded changes that need something specific to manifest',
+       '(an unusual input, a multi-step history, a particular chunking, two cooperating sites) and mostly sit outside the anchored function;',
+       'round 4 was commissioned after the scope of each property was narrowed (change log item 18) as an independent test of it.',
+       'Changes that a check missed when first tried, and what was strengthened, are listed in the change log (items 10 and 16).', '',
        f'{len(rows)} confirmed changes, {sum(1 for r in rows if not r.endswith("| - |"))} detected by the owning check.', '',
        '| id | file(s) | what the change does / needs (from the author\'s notes) | first rule(s) that report it |',
        '|----|---------|----------------------------------------------------------|------------------------------|'] + rows + ['']
